@@ -71,3 +71,10 @@ func TestC33Known(t *testing.T) {
 		deviates("regex.Replace(\"X\", 1, 0) on subject \"\" with pattern a*", out, "X")
 	}
 }
+
+// TestReplayC33 runs the SQL witness scripts in /verif/replays/C33.
+func TestReplayC33(t *testing.T) {
+	st := stats.New("C33", "replay")
+	defer st.Flush()
+	fx.ReplayDir(t, st)
+}
